@@ -194,7 +194,13 @@ class _SendReport(FnCheck):
         self.o, self.f = mk_subscription(b, cls=self.cls)
         st.ghost['posts'] = z3.IntVal(0)
         self.valid = b.bool('is_valid_now')
+        self.notify_path = b.str('notify_to_path')
+        self.nurl = b.obj('notify_to_url', path=self.notify_path, netloc=b.str('notify_to_netloc'), scheme=b.str('notify_to_scheme'))
+        b.set(self.o, 'notify_to_url', self.nurl)
+        b.distinct(self.o, self.nurl)
         return self.o, [b.any('body_node'), b.any('action')], {}
+
+    stable_fields = ('notify_to_url', 'path')
 
     def callees(self, ex):
         def is_valid(ex_, st, args, kwargs):
@@ -202,6 +208,7 @@ class _SendReport(FnCheck):
 
         def post(ex_, st, args, kwargs):
             st.ghost['posts'] = st.ghost['posts'] + 1
+            st.ghost['c:post_path'] = st.box(args[0]) if args else None
             outs = []
             for cls in ('HTTPReturnCodeError', 'ConnectionRefusedError', 'TimeoutError', 'asyncio.TimeoutError', '*'):
                 e = st.fork()
@@ -227,6 +234,11 @@ class _SendReport(FnCheck):
         posts = st.ghost['posts']
         errs0 = self.f['notify_errors'].e
         errs1 = Val.i(field(st, self.o, 'notify_errors'))
+        if 'c:post_path' in st.ghost:
+            # the request line carries the path component of NotifyTo only: scheme and host of the connection are those
+            # of the pooled client for that peer (C19), never taken from the address text the subscriber supplied
+            ex.oblige(st, 'posted_to_the_path_component_of_notify_to',
+                      st.ghost['c:post_path'] == Val.str(self.notify_path.e) if st.ghost['c:post_path'] is not None else z3.BoolVal(False))
         if outcome[0] == 'ret' or 'post_message_to' in outcome[1].origin:
             ex.oblige(st, 'post_iff_live', posts == z3.If(live, 1, 0))
         else:
